@@ -458,27 +458,35 @@ def _run_run(case):
                 "col": [float(x) for x in sim.pilot_signals[:, t]] if t < w else None,
             })
 
+    def _state(sim):
+        h = sim.schedule_history
+        return {"resolve": bool(sim._resolve), "lsu": sim._last_schedule_update, "iteration": int(sim.iteration),
+                "hist_keys": sorted(int(k) for k in h) if h is not None else None}
+
     class Script(BaseAlgorithm):
+        """only `schedule` is overridden: the simulator reaches it through the real BaseAlgorithm.run()"""
+
         def __init__(self, max_recompute):
             super().__init__()
             self.max_recompute = max_recompute
             self.calls = []
+            self.attempt = {}
 
-        def schedule(self, active_sessions):  # not used: run() is overridden
-            return {}
-
-        def run(self):
+        def schedule(self, active_sessions):
             sim = self.interface._simulator
             t = int(sim.iteration)
-            pairs = script.get(str(t), [])
+            k = self.attempt.get(t, 0)
+            self.attempt[t] = k + 1
+            pairs = script.get(str(t) if k == 0 else f"{t}r{k}", [])
             # what the scheduler sees of the pilots applied in the previous period
             try:
-                la = sorted([k, float(v)] for k, v in self.interface.last_applied_pilot_signals.items())
+                la = sorted([k2, float(v)] for k2, v in self.interface.last_applied_pilot_signals.items())
             except Exception as e:  # noqa
                 la = "raised " + I.err_name(e)
             active = sorted([ev.session_id, ev.station_id, int(ev.arrival)] for ev in sim.get_active_evs())
             self.calls.append({"t": t, "lastTs": sim.event_queue.get_last_timestamp(), "sched": pairs,
-                               "before": _mat(sim.pilot_signals), "last_applied": la, "active": active})
+                               "before": _mat(sim.pilot_signals), "last_applied": la, "active": active,
+                               "n_sessions": len(active_sessions), "state": _state(sim), "raised": None})
             return _sched_obj(pairs)
 
     net = _network(stations, case.get("limit"), maxrate=case.get("maxrate"), cls=Net)
@@ -489,44 +497,80 @@ def _run_run(case):
                                                  Battery(100, 0, 100))))
     evs += [RecomputeEvent(int(t)) for t in case.get("recompute", [])]
     sched = Script(case.get("max_recompute"))
-    sim = Simulator(net, sched, EventQueue(evs), datetime(2020, 1, 1), verbose=False)
+    sim = Simulator(net, sched, EventQueue(evs), datetime(2020, 1, 1), verbose=False, store_schedule_history=True)
     net._sim = sim
     width0 = int(sim.pilot_signals.shape[1])
     err = None
-    try:
-        sim.run()
-    except Exception as e:  # noqa
-        err = I.err_name(e)
-    return {"width0": width0, "order_ok": list(net.station_ids) == list(stations), "err": err,
-            "iteration": int(sim.iteration), "log": net.log, "calls": sched.calls,
+    runs = 0
+    while True:
+        runs += 1
+        try:
+            sim.run()
+            break
+        except Exception as e:  # noqa
+            name = I.err_name(e)
+            c = sched.calls[-1] if sched.calls else None
+            in_call = (c is not None and c["raised"] is None and c["t"] == int(sim.iteration)
+                       and not any(x["t"] == c["t"] for x in net.log))
+            if in_call and name in ("KeyError", "InvalidSchedule", "TypeError", "ValueError"):
+                # the exception came out of _update_schedules(schedule of this call)
+                c["raised"] = name
+                c["state_after"] = _state(sim)
+                c["after_same"] = _mat(sim.pilot_signals) == c["before"]
+                if case.get("resume") and runs < 6:
+                    continue          # catch the error and call run() again
+            err = name
+            break
+    hist = None
+    if sim.schedule_history is not None:
+        hist = sorted([int(t), sorted([st, [float(x) for x in np.asarray(row, dtype=float).ravel()]]
+                                     for st, row in d.items())] for t, d in sim.schedule_history.items())
+    return {"width0": width0, "order_ok": list(net.station_ids) == list(stations), "err": err, "runs": runs,
+            "iteration": int(sim.iteration), "log": net.log, "calls": sched.calls, "history": hist,
             "final": _mat(sim.pilot_signals), "rates_w": int(sim.charging_rates.shape[1])}
 
 
 def _run_ops(obs):
     """the periods of the observed run as model operations (`_li` = index into obs["log"], `_ci` = index
-    into obs["calls"]; the driver ignores these fields)"""
-    calls = {c["t"]: (i, c) for i, c in enumerate(obs["calls"])}
+    into obs["calls"]; the driver ignores these fields).  A call whose schedule was rejected is a `submit`
+    (the model must reject it too and keep its state); on resume the same period has another call."""
+    calls = obs["calls"]
     ops = []
-    logged = set()
+    ci = 0
+
+    def rejected(c, i):
+        ops.append({"op": "submit", "t": c["t"], "lastTs": c["lastTs"], "sched": _sched_wire(c["sched"]),
+                    "_err": c["raised"], "_ci": i})
+
     for li, e in enumerate(obs["log"]):
-        ic = calls.get(e["t"])
-        logged.add(e["t"])
-        if ic is not None and "active" in ic[1]:
-            ops.append({"op": "last_applied", "t": e["t"], "lastTs": None, "active": ic[1]["active"], "_ci": ic[0]})
+        while ci < len(calls) and calls[ci]["t"] == e["t"] and calls[ci].get("raised"):
+            rejected(calls[ci], ci)
+            ci += 1
+        c = None
+        if ci < len(calls) and calls[ci]["t"] == e["t"]:
+            c = calls[ci]
+            if "active" in c:
+                ops.append({"op": "last_applied", "t": e["t"], "lastTs": None, "active": c["active"], "_ci": ci})
+            ci += 1
         ops.append({"op": "period", "t": e["t"], "lastTs": e["lastTs"], "_li": li,
-                    "sched": _sched_wire(ic[1]["sched"]) if ic is not None else None})
-    # the period in which the run died (if any): the scheduler may have been called in it
-    for t, (i, c) in sorted(calls.items()):
-        if t not in logged:
-            ops.append({"op": "submit", "t": t, "lastTs": c["lastTs"], "sched": _sched_wire(c["sched"])})
+                    "sched": _sched_wire(c["sched"]) if c is not None else None})
+    # the period in which the run died for good (if any)
+    tail = False
+    while ci < len(calls):
+        c = calls[ci]
+        tail = True
+        if c.get("raised"):
+            rejected(c, ci)
+        else:
+            ops.append({"op": "submit", "t": c["t"], "lastTs": c["lastTs"], "sched": _sched_wire(c["sched"])})
             if obs["err"] == "InvalidRate":
-                ops.append({"op": "grow", "t": t, "lastTs": c["lastTs"]})
-    if not calls or max(calls) in logged:
-        if obs["err"] == "InvalidRate":
-            # died in update_pilots of a period without scheduler call: growth had happened
-            t = obs["iteration"]
-            last = obs["log"][-1]["lastTs"] if obs["log"] else None
-            ops.append({"op": "grow", "t": t, "lastTs": last, "approx": True})
+                ops.append({"op": "grow", "t": c["t"], "lastTs": c["lastTs"]})
+        ci += 1
+    if not tail and obs["err"] == "InvalidRate":
+        # died in update_pilots of a period without scheduler call: growth had happened
+        t = obs["iteration"]
+        last = obs["log"][-1]["lastTs"] if obs["log"] else None
+        ops.append({"op": "grow", "t": t, "lastTs": last, "approx": True})
     return ops
 
 
